@@ -833,6 +833,15 @@ func judge(codec string, prefix, src, out []byte, werr error) (key, what string)
 	defer verifierPool.Put(v)
 	d, err := v.decodePooled(codec, z)
 	if err != nil || !bytes.Equal(d, src) {
+		// narrow class: the bytes are a valid stream of ANOTHER codec
+		for _, other := range codecs {
+			if other == codec {
+				continue
+			}
+			if d2, e2 := decode(other, z); e2 == nil && bytes.Equal(d2, src) {
+				return "roundtrip-wrong-codec-" + codec + "-emits-" + other, fmt.Sprintf("%d output bytes are a valid %s stream of the input, not %s", len(z), other, codec)
+			}
+		}
 		return "roundtrip-mismatch-" + codec, fmt.Sprintf("independent decoder: %d compressed bytes -> %d bytes, err=%v; input had %d bytes", len(z), len(d), err, len(src))
 	}
 	return "", ""
@@ -1017,6 +1026,11 @@ type satPlan struct {
 	Procs int     `json:"procs"` // GOMAXPROCS of the child process (queue capacity = Procs*2048, Procs workers)
 	Seed  int64   `json:"seed"`
 	KiB   int     `json:"input_kib"` // input size (default 100)
+	// Gate selects the deterministic probe of the stackless.Writer path: the one queue all stackless
+	// writers share is first filled with parked filler operations, then Calls Write*Level(plain io.Writer)
+	// calls and Calls streamed CompressHandler responses of Codec run while it is full.
+	Gate  bool `json:"gate"`
+	Calls int  `json:"calls"`
 }
 
 // satResult is what the child process reports.
@@ -1030,6 +1044,8 @@ type satResult struct {
 	QueueFull  int64             `json:"queue_full_hits"` // stackless.VerifQueueFullCount: the overflow branch was really taken
 	Failed     map[string]int    `json:"failed"`
 	What       map[string]string `json:"what"`
+	Streamed   int               `json:"streamed_responses"` // gate probe: streamed responses decoded
+	FillerHits int64             `json:"filler_queue_full_hits"`
 }
 
 func peakRSSMiB() int {
@@ -1084,6 +1100,10 @@ func TestC22ChildSaturation(t *testing.T) {
 	}
 	src := saturationInput(p.Seed, p.KiB)
 	queue := runtime.GOMAXPROCS(0) * 2048
+	if p.Gate {
+		childGateProbe(p, src, queue)
+		return
+	}
 	g := int(float64(queue) * p.Load)
 	var explicit atomic.Int64
 	t0 := time.Now()
@@ -1108,12 +1128,136 @@ func TestC22ChildSaturation(t *testing.T) {
 	fmt.Printf("\nSAT-RESULT %s\n", b)
 }
 
-func runSaturation(r *mon.Run) {
+// gateWriter is the filler operation: a stackless.Writer whose Write parks until the gate opens.
+type gateWriter struct{ gate chan struct{} }
+
+func (g *gateWriter) Write(p []byte) (int, error) { <-g.gate; return len(p), nil }
+func (g *gateWriter) Flush() error                { return nil }
+func (g *gateWriter) Close() error                { return nil }
+func (g *gateWriter) Reset(io.Writer)             {}
+
+// childGateProbe: every stackless.Writer of every codec funnels its operations through ONE queue
+// (stackless.stacklessWriterFunc). The probe parks GOMAXPROCS filler operations in the workers and
+// queue-capacity more in the queue (public API: stackless.NewWriter around a writer that waits for a
+// gate), waits until the hook counter shows that further operations find the queue full, and then
+// runs the codec's Write*Level(plain io.Writer) calls and streamed CompressHandler responses: each of
+// their operations deterministically takes the queue-full branch. Everything must still round-trip.
+func childGateProbe(p satPlan, src []byte, queue int) {
+	gw := &gateWriter{gate: make(chan struct{})}
+	extra := 8
+	nf := queue + runtime.GOMAXPROCS(0) + extra
+	var fillers sync.WaitGroup
+	fillers.Add(nf)
+	for k := 0; k < nf; k++ {
+		go func() {
+			defer fillers.Done()
+			defer func() { recover() }() //nolint:errcheck
+			sw := stackless.NewWriter(io.Discard, func(io.Writer) stackless.Writer { return gw })
+			sw.Write([]byte{1}) //nolint:errcheck
+		}()
+	}
+	res := satResult{Queue: queue, InputLen: len(src), Failed: map[string]int{}, What: map[string]string{}}
+	t0 := time.Now()
+	for stackless.VerifQueueFullCount.Load() < int64(extra) {
+		if time.Since(t0) > 90*time.Second { // generous watchdog: the parent reports "no queue-full hit" (inconclusive), never a verdict
+			close(gw.gate)
+			b, _ := json.Marshal(res)
+			fmt.Printf("\nSAT-RESULT %s\n", b)
+			return
+		}
+		time.Sleep(time.Millisecond)
+	}
+	res.FillerHits = stackless.VerifQueueFullCount.Load()
+	var explicit atomic.Int64
+	var streamed atomic.Int64
+	calls := p.Calls
+	bad := launch(2*calls, func(k int) (string, string) {
+		if k < calls {
+			out, werr := compress(p.Codec, apiWritePlain, nil, src, p.Level)
+			key, what := judge(p.Codec, nil, src, out, werr)
+			if key == "explicit-error" {
+				explicit.Add(1)
+				return "", ""
+			}
+			return key, what
+		}
+		// streamed response of this codec through the real server while the queue is full
+		body := src[:len(src)/2+k]
+		inner := func(ctx *fasthttp.RequestCtx) {
+			ctx.SetBodyStream(&slowReader{b: body, step: 1500 + 37*k}, -1)
+		}
+		h := fasthttp.CompressHandlerBrotliLevel(inner, p.Level, p.Level)
+		conn := netx.NewScripted([]byte("GET /s HTTP/1.1\r\nHost: c22\r\nAccept-Encoding: "+p.Codec+"\r\n\r\n"), nil)
+		srv := &fasthttp.Server{Handler: h, Logger: nullLogger{}, NoDefaultServerHeader: true}
+		srv.ServeConn(conn) //nolint:errcheck
+		resp, err := http.ReadResponse(bufio.NewReader(bytes.NewReader(conn.Written())), &http.Request{Method: "GET"})
+		if err != nil {
+			return "streamed-wire-unparseable", err.Error()
+		}
+		got, err := io.ReadAll(resp.Body)
+		if err != nil {
+			// the server aborted the stream visibly (truncated chunked body): told its peer, like an explicit error
+			explicit.Add(1)
+			return "", ""
+		}
+		if ce := resp.Header.Get("Content-Encoding"); ce != p.Codec {
+			return "streamed-wrong-content-encoding", fmt.Sprintf("Content-Encoding %q for Accept-Encoding %s", ce, p.Codec)
+		}
+		dec, err := decode(p.Codec, got)
+		if err != nil || !bytes.Equal(dec, body) {
+			return "streamed-decoded-mismatch-" + p.Codec, fmt.Sprintf("streamed %s response under a full stackless queue: %d wire bytes decode to %d bytes (err=%v), handler body has %d", p.Codec, len(got), len(dec), err, len(body))
+		}
+		streamed.Add(1)
+		return "", ""
+	})
+	res.QueueFull = stackless.VerifQueueFullCount.Load() - res.FillerHits
+	close(gw.gate)
+	fillers.Wait()
+	res.Goroutines, res.Seconds, res.Explicit, res.PeakRSSMiB, res.Streamed = 2*calls, math.Round(time.Since(t0).Seconds()*10)/10, explicit.Load(), peakRSSMiB(), int(streamed.Load())
+	for k, e := range bad {
+		res.Failed[k] = e.n
+		res.What[k] = e.what
+	}
+	b, _ := json.Marshal(res)
+	fmt.Printf("\nSAT-RESULT %s\n", b)
+}
+
+// perCodecPlans: one overflow probe per codec and API family (both tiers). Append*BytesLevel goes
+// through the codec's own stacklessWrite* queue: natural overflow with a 25 % surplus at GOMAXPROCS=2;
+// Write*Level(plain io.Writer) and streamed bodies go through the shared stackless.Writer queue: gate probe.
+// Cheap levels: on a tree that compresses the overflow on the callers' goroutines every surplus call
+// owns an encoder state for its duration.
+func perCodecPlans() []satPlan {
+	lv := map[string]int{"gzip": fasthttp.CompressBestSpeed, "deflate": fasthttp.CompressBestSpeed, "br": 0, "zstd": fasthttp.CompressZstdDefault}
 	var plans []satPlan
+	for _, c := range codecs {
+		// small surplus: on a tree that compresses the overflow on the callers' goroutines every surplus call owns
+		// an encoder state (zstd: ~2 MB) until it is done, and on a loaded machine they all pile up
+		load := 1.06
+		if c == "zstd" {
+			load = 1.03
+		}
+		plans = append(plans, satPlan{Codec: c, API: apiAppendLevel, Level: lv[c], Load: load, Procs: 2, KiB: 64})
+	}
+	for _, c := range codecs {
+		plans = append(plans, satPlan{Codec: c, API: apiWritePlain, Level: lv[c], Procs: 2, KiB: 32, Gate: true, Calls: 24})
+	}
+	return plans
+}
+
+// escalate returns a heavier variant of a natural-overflow plan whose child never found the queue full.
+func escalate(p satPlan, attempt int) satPlan {
+	_ = attempt
+	p.Load = 1 + 2.5*(p.Load-1) // 2.5 times the surplus
+	p.KiB = 100                 // and longer jobs
+	return p
+}
+
+func runSaturation(r *mon.Run) {
+	plans := perCodecPlans()
+	nPerCodec := len(plans)
 	best := fasthttp.CompressBestCompression
-	if r.Quick() {
-		plans = []satPlan{{Codec: "gzip", API: apiAppendLevel, Level: best, Load: 1.25, Procs: 2}}
-	} else {
+	if !r.Quick() {
 		for _, load := range []float64{1.1, 1.25, 1.5} {
 			plans = append(plans,
 				satPlan{Codec: "gzip", API: apiAppendLevel, Level: best, Load: load, Procs: 2},
@@ -1139,18 +1283,33 @@ func runSaturation(r *mon.Run) {
 			continue
 		}
 		p.Seed = r.Rand("saturation", pi).Int63()
-		pj, _ := json.Marshal(p)
-		cmd := exec.Command(os.Args[0], "-test.run", "^TestC22ChildSaturation$", "-test.count=1", "-test.v", "-test.timeout=1500s")
-		cmd.Env = append(os.Environ(), "VERIF_C22_CHILD=sat", "VERIF_C22_SAT="+string(pj), "VERIF_REPORT=", fmt.Sprintf("GOMAXPROCS=%d", p.Procs))
-		out, err := cmd.CombinedOutput()
+		var pj, out []byte
+		var err error
 		var res satResult
 		ok := false
-		if i := bytes.Index(out, []byte("SAT-RESULT ")); i >= 0 && err == nil {
-			line := out[i+len("SAT-RESULT "):]
-			if j := bytes.IndexByte(line, '\n'); j >= 0 {
-				line = line[:j]
+		attempts := 0
+		for {
+			attempts++
+			pj, _ = json.Marshal(p)
+			cmd := exec.Command(os.Args[0], "-test.run", "^TestC22ChildSaturation$", "-test.count=1", "-test.v", "-test.timeout=1500s")
+			cmd.Env = append(os.Environ(), "VERIF_C22_CHILD=sat", "VERIF_C22_SAT="+string(pj), "VERIF_REPORT=", fmt.Sprintf("GOMAXPROCS=%d", p.Procs))
+			out, err = cmd.CombinedOutput()
+			res, ok = satResult{}, false
+			if i := bytes.Index(out, []byte("SAT-RESULT ")); i >= 0 && err == nil {
+				line := out[i+len("SAT-RESULT "):]
+				if j := bytes.IndexByte(line, '\n'); j >= 0 {
+					line = line[:j]
+				}
+				ok = json.Unmarshal(line, &res) == nil
 			}
-			ok = json.Unmarshal(line, &res) == nil
+			// a natural-overflow run in which no call found the queue full (and nothing failed) proved nothing
+			// about the overflow path: offer more load, at most twice (the hook, not the clock, decides)
+			if ok && !p.Gate && pi < nPerCodec && res.QueueFull == 0 && len(res.Failed) == 0 && attempts < 3 {
+				r.Event("saturation_retries_no_queue_full", 1)
+				p = escalate(p, attempts)
+				continue
+			}
+			break
 		}
 		if !ok {
 			if bytes.Contains(out, []byte("panic:")) && bytes.Contains(out, []byte("valyala/fasthttp")) {
@@ -1160,17 +1319,35 @@ func runSaturation(r *mon.Run) {
 			}
 			continue
 		}
-		if res.Goroutines <= res.Queue+p.Procs {
-			r.T.Fatalf("harness bug: saturation offered %d calls to a queue of %d", res.Goroutines, res.Queue)
+		fam := "append"
+		if p.API == apiWritePlain {
+			fam = "writer"
 		}
-		r.Cases(res.Goroutines, fmt.Sprintf("saturation/%s/%s/load=%.2f/procs=%d", p.Codec, apiNames[p.API], p.Load, p.Procs), true)
-		r.Event("saturation_calls_checked", res.Goroutines)
-		r.Event("saturation_calls_beyond_queue_capacity", res.Goroutines-res.Queue-p.Procs)
+		if pi < nPerCodec {
+			r.Event("saturation_queue_full_hits_"+p.Codec+"_"+fam, int(res.QueueFull))
+		}
+		if p.Gate {
+			if res.FillerHits == 0 {
+				r.Inconclusive(fmt.Sprintf("gate probe (%s): the filler operations never filled the stackless.Writer queue", pj))
+				continue
+			}
+			r.Cases(res.Goroutines, fmt.Sprintf("saturation/gate/%s", p.Codec), true)
+			r.Event("saturation_calls_checked", res.Goroutines)
+			r.Event("saturation_streamed_responses_under_full_queue", res.Streamed)
+		} else {
+			if res.Goroutines <= res.Queue+p.Procs {
+				r.T.Fatalf("harness bug: saturation offered %d calls to a queue of %d", res.Goroutines, res.Queue)
+			}
+			r.Cases(res.Goroutines, fmt.Sprintf("saturation/%s/%s/load=%.2f/procs=%d", p.Codec, apiNames[p.API], p.Load, p.Procs), true)
+			r.Event("saturation_calls_checked", res.Goroutines)
+			r.Event("saturation_calls_beyond_queue_capacity", res.Goroutines-res.Queue-p.Procs)
+		}
 		r.Event("saturation_explicit_errors", int(res.Explicit))
 		r.Event("saturation_queue_full_branch_hits", int(res.QueueFull))
 		minOffered += res.Goroutines
 		row := map[string]any{"codec": p.Codec, "api": apiNames[p.API], "level": p.Level, "gomaxprocs": p.Procs, "goroutines": res.Goroutines,
-			"queue_capacity": res.Queue, "input_len": res.InputLen, "seconds": res.Seconds, "explicit_errors": res.Explicit, "peak_rss_mib": res.PeakRSSMiB, "failed": res.Failed}
+			"queue_capacity": res.Queue, "input_len": res.InputLen, "seconds": res.Seconds, "explicit_errors": res.Explicit, "peak_rss_mib": res.PeakRSSMiB, "failed": res.Failed,
+			"queue_full_hits": res.QueueFull, "gate_probe": p.Gate, "streamed_responses": res.Streamed, "attempts": attempts}
 		for key, n := range res.Failed {
 			vkey := "saturation-" + key
 			if key == "empty-output" {
@@ -1185,6 +1362,11 @@ func runSaturation(r *mon.Run) {
 	if !r.Replaying() {
 		r.Require("saturation_calls_beyond_queue_capacity", 500)
 		r.Require("saturation_queue_full_branch_hits", 1) // hook stackless.VerifQueueFullCount: the overflow path was executed
+		// ... for every codec and both API families (a slip in one codec's fall-back must not hide behind another's)
+		for _, c := range codecs {
+			r.Require("saturation_queue_full_hits_"+c+"_append", 1)
+			r.Require("saturation_queue_full_hits_"+c+"_writer", 24)
+		}
 	}
 }
 
@@ -1257,7 +1439,7 @@ func TestC22(t *testing.T) {
 	r.Assume("net/http.ReadResponse is the wire parser (framing: Content-Length / chunked / close)")
 	r.Assume("Accept-Encoding model written from RFC 9110 12.5.3; lists naming the chosen coding both with q>0 and q=0 are ambiguous and not judged (skipped_ambiguous_accept_encoding); an identity response is never judged against identity;q=0")
 	r.Assume("Write*Level to a plain io.Writer that returns a non-nil error under overload told its caller: counted as saturation_explicit_errors, not judged; a nil error with undecodable output is judged")
-	r.Assume("the stackless queue capacity is GOMAXPROCS*2048 (stackless/func.go); the saturation run offers more simultaneous calls than that, it cannot observe from outside whether the queue-full branch was taken on a repaired tree")
+	r.Assume("the stackless queue capacity is GOMAXPROCS*2048 (stackless/func.go); that the queue-full branch was really executed is read from the hook counter stackless.VerifQueueFullCount (verif build tag) and required per codec for both API families: Append*BytesLevel (the codec's own stacklessWrite* queue, natural overflow with a small surplus in a GOMAXPROCS=2 child, retried with more load while the counter stays 0) and the stackless.Writer path (one queue shared by all codecs: filled deterministically with parked filler operations through the public stackless.NewWriter, then Write*Level(plain io.Writer) calls and streamed CompressHandler responses of the codec run while it is full)")
 	// The codec libraries allocate MiB-sized encoder states that fasthttp keeps in sync.Pools; with the
 	// default GC pacing the monitor's own garbage empties those pools every few milliseconds and the run
 	// is dominated by page faults. Pacing only; no effect on what is checked.
